@@ -59,6 +59,8 @@ pub fn family() -> Vec<(&'static str, D)> {
         // a key hash that has to be DISsatisfied when only the other branch signs (the finalizer must know the key)
         ("tr-leaf-pkh-or", D::Tr("K1".into(), vec![(1, pk("K2")), (1, T::OrD(Box::new(T::Check(Box::new(T::PkH("K3".into())))), Box::new(pk("K4"))))])),
         ("wsh-pkh-or", D::Wsh(T::OrD(Box::new(T::Check(Box::new(T::PkH("K3".into())))), Box::new(pk("K4"))))),
+        ("wsh-andor-after", D::Wsh(T::AndOr(Box::new(pk("K1")), Box::new(T::After(10)), Box::new(pk("K2"))))),
+        ("wsh-thresh-pkh", D::Wsh(T::Thresh(2, vec![T::Check(Box::new(T::PkH("K1".into()))), T::Alt(Box::new(pk("K2"))), T::Alt(Box::new(pk("K3")))]))),
         // a signed branch next to a signature-free one that needs a key only known by its hash
         (
             "wsh-pk-pkh-older",
@@ -106,20 +108,22 @@ pub struct TxCfg {
     /// nSequence of inputs whose descriptor contains older()
     pub seq_older: u32,
     pub seq_other: u32,
+    /// input 0 gets a final sequence whatever its descriptor (the other input keeps nLockTime enabled)
+    pub seq0_final: bool,
 }
 
-pub const CFG_DEFAULT: TxCfg = TxCfg { name: "v2", version: 2, lock_time: 10, seq_older: 5, seq_other: 0xffff_fffe };
+pub const CFG_DEFAULT: TxCfg = TxCfg { name: "v2", version: 2, lock_time: 10, seq_older: 5, seq_other: 0xffff_fffe, seq0_final: false };
 /// Transactions in which some time-locked branch must NOT be taken (BIP65 / BIP68 / BIP112 rules).
 pub const CFGS_LOCKS: [TxCfg; 9] = [
     CFG_DEFAULT,
-    TxCfg { name: "version1", version: 1, lock_time: 10, seq_older: 5, seq_other: 0xffff_fffe },
-    TxCfg { name: "version0", version: 0, lock_time: 10, seq_older: 5, seq_other: 0xffff_fffe },
-    TxCfg { name: "version3", version: 3, lock_time: 10, seq_older: 5, seq_other: 0xffff_fffe },
-    TxCfg { name: "sequence4", version: 2, lock_time: 10, seq_older: 4, seq_other: 0xffff_fffe },
-    TxCfg { name: "locktime9", version: 2, lock_time: 9, seq_older: 5, seq_other: 0xffff_fffe },
-    TxCfg { name: "final-sequences", version: 2, lock_time: 10, seq_older: 0xffff_ffff, seq_other: 0xffff_ffff },
-    TxCfg { name: "disable-flag", version: 2, lock_time: 10, seq_older: 0x8000_0005, seq_other: 0xffff_fffe },
-    TxCfg { name: "time-units", version: 2, lock_time: 500_000_010, seq_older: 0x0040_0005, seq_other: 0xffff_fffe },
+    TxCfg { name: "version1", version: 1, lock_time: 10, seq_older: 5, seq_other: 0xffff_fffe, seq0_final: false },
+    TxCfg { name: "version0", version: 0, lock_time: 10, seq_older: 5, seq_other: 0xffff_fffe, seq0_final: false },
+    TxCfg { name: "version3", version: 3, lock_time: 10, seq_older: 5, seq_other: 0xffff_fffe, seq0_final: false },
+    TxCfg { name: "sequence4", version: 2, lock_time: 10, seq_older: 4, seq_other: 0xffff_fffe, seq0_final: false },
+    TxCfg { name: "locktime9", version: 2, lock_time: 9, seq_older: 5, seq_other: 0xffff_fffe, seq0_final: false },
+    TxCfg { name: "final-sequences", version: 2, lock_time: 10, seq_older: 0xffff_ffff, seq_other: 0xffff_ffff, seq0_final: false },
+    TxCfg { name: "disable-flag", version: 2, lock_time: 10, seq_older: 0x8000_0005, seq_other: 0xffff_fffe, seq0_final: false },
+    TxCfg { name: "time-units", version: 2, lock_time: 500_000_010, seq_older: 0x0040_0005, seq_other: 0xffff_fffe, seq0_final: false },
 ];
 
 struct Setup {
@@ -150,7 +154,7 @@ fn setup_opt(pair: &[D; 2], cfg: TxCfg, partial_updates: bool) -> Option<Setup> 
                 TxOut { value: Amount::from_sat(100_000 + i as u64), script_pubkey: c.spk.clone() },
             ],
         };
-        let seq = if c.olders.is_empty() { cfg.seq_other } else { cfg.seq_older };
+        let seq = if cfg.seq0_final && i == 0 { 0xffff_ffff } else if c.olders.is_empty() { cfg.seq_other } else { cfg.seq_older };
         inputs.push(TxIn { previous_output: OutPoint { txid: ftx.compute_txid(), vout: 1 }, script_sig: ScriptBuf::new(), sequence: Sequence(seq), witness: Witness::new() });
         prevouts.push(ftx.output[1].clone());
         funding.push(ftx);
@@ -520,7 +524,7 @@ fn explore_pair_mode(rep: &Report, name: &str, pair: &[D; 2], depth: usize, cfg:
     // mode 0: C14's own invariants; 1: completeness (C02 on the PSBT path); 2: third-party
     // alternatives to non-malleable finalizations (C03 on the PSBT path)
     let prop = ["C14", "C02", "C03"][mode as usize];
-    let s = match setup_opt(pair, cfg, mode == 2) {
+    let s = match setup_opt(pair, cfg, mode != 0) {
         Some(s) => s,
         None => return (cen, 0, 0),
     };
@@ -666,17 +670,20 @@ fn explore_pair_mode(rep: &Report, name: &str, pair: &[D; 2], depth: usize, cfg:
                     _ => (vec![], false),
                 };
                 for i in targets {
-                    if is_final(&q, i) || !h2.contains(&Act::Update(i)) {
+                    if is_final(&q, i) || !(h2.contains(&Act::Update(i)) || h2.contains(&Act::UpdateNoOrigins(i))) {
                         continue;
                     }
                     let c = &s.cases[i];
                     let w = world_of_input(&s, &q, i);
+                    // without key-origin records the finalizer knows a key behind a hash only through its signature
+                    let origins = !q.inputs[i].bip32_derivation.is_empty() || !q.inputs[i].tap_key_origins.is_empty();
+                    let known: Option<BTreeSet<String>> = if origins { None } else { Some(w.sigs.clone()) };
                     let all_pre = c.hash_labels().iter().all(|h| w.pre.contains(h));
                     if !(mall || (c.sane && all_pre)) {
                         continue;
                     }
                     bump(&mut cen, "completeness_checks");
-                    let sr = crate::sat::witness_exists(c, &w, &spend_of(&s, i), 200_000);
+                    let sr = crate::sat::witness_exists_known(c, &w, &spend_of(&s, i), 200_000, known.as_ref());
                     if sr.capped {
                         bump(&mut cen, "completeness_search_capped");
                         continue;
@@ -802,8 +809,14 @@ pub fn completeness_for_c02(rep: &Report, tier: Tier) -> Census {
         ("tr-leaf-pkh-or", "wsh-multi"),
     ];
     let depth = tier.pick(7, 9);
-    let jobs: Vec<(String, [D; 2])> = pairs.iter().map(|(a, b)| (format!("{}+{}", a, b), [relabel(&fam[idx(a)].1, 0), relabel(&fam[idx(b)].1, 1)])).collect();
-    let results: Vec<(Census, u64, u64)> = jobs.par_iter().map(|(name, pair)| explore_pair_mode(rep, name, pair, depth, CFG_DEFAULT, 1)).collect();
+    let mut jobs: Vec<(String, [D; 2], TxCfg)> = pairs.iter().map(|(a, b)| (format!("{}+{}", a, b), [relabel(&fam[idx(a)].1, 0), relabel(&fam[idx(b)].1, 1)], CFG_DEFAULT)).collect();
+    // an input with a final sequence next to one that keeps nLockTime enabled: after() is unusable for the first only
+    let mixed = TxCfg { name: "mixed-finality", seq0_final: true, ..CFG_DEFAULT };
+    for (a, b) in [("wsh-andor-after", "wpkh"), ("wsh-or-after", "wsh-multi"), ("wsh-thresh-pkh", "wpkh")] {
+        jobs.push((format!("{}+{}@mixed-finality", a, b), [relabel(&fam[idx(a)].1, 0), relabel(&fam[idx(b)].1, 1)], mixed));
+        jobs.push((format!("{}+{}", a, b), [relabel(&fam[idx(a)].1, 0), relabel(&fam[idx(b)].1, 1)], CFG_DEFAULT));
+    }
+    let results: Vec<(Census, u64, u64)> = jobs.par_iter().map(|(name, pair, cfg)| explore_pair_mode(rep, name, pair, depth, *cfg, 1)).collect();
     let mut cen = Census::new();
     for (c, _, _) in results {
         for k in ["completeness_checks", "completeness_search_capped", "finalize_failed_and_unsatisfiable", "inputs_finalized"] {
@@ -890,6 +903,11 @@ pub fn run(tier: Tier) -> i32 {
             }
             jobs.push((format!("{}+{}@{}", a, b, cfg.name), [relabel(&fam[idx(a)].1, 0), relabel(&fam[idx(b)].1, 1)], depth, cfg));
         }
+    }
+    // one input final, the other keeps nLockTime enabled: after() is unusable for the first input only
+    let mixed = TxCfg { name: "mixed-finality", seq0_final: true, ..CFG_DEFAULT };
+    for (a, b) in [("wsh-andor-after", "wpkh"), ("wsh-or-after", "wsh-or-older"), ("wsh-after", "wsh-or-after")] {
+        jobs.push((format!("{}+{}@mixed-finality", a, b), [relabel(&fam[idx(a)].1, 0), relabel(&fam[idx(b)].1, 1)], depth, mixed));
     }
     // inputs that carry both utxo fields with different amounts
     let forged = TxCfg { name: "forged-utxo", ..CFG_DEFAULT };
